@@ -38,19 +38,21 @@ def _cargo_env(extra=None):
     return env
 
 
+HOOK_LEVEL = {}
+
 _BUILD = {
     # name: (cargo argv tail, env, relative path of the binary)
     'release': (['build', '--release'], {}, 'target/release/sm9exec'),
     'dev': (['build'], {}, 'target/debug/sm9exec'),
     # coverage audit only (tools/coverage.sh): VERIF_RELEASE_FLAVOUR=cov makes every check use this binary as its release executor
     'cov': (['+nightly', 'build', '--release', '--target-dir', 'target-cov'],
-            {'RUSTFLAGS': '--cfg %s -Cinstrument-coverage' % GUARD}, 'target-cov/release/sm9exec'),
+            {'RUSTFLAGS': '-Cinstrument-coverage'}, 'target-cov/release/sm9exec'),
     'asan': (['+nightly', 'build', '--release', '--target', 'x86_64-unknown-linux-gnu', '--target-dir', 'target-asan'],
-             {'RUSTFLAGS': '--cfg %s -Zsanitizer=address -Cforce-frame-pointers=yes' % GUARD},
+             {'RUSTFLAGS': '-Zsanitizer=address -Cforce-frame-pointers=yes'},
              'target-asan/x86_64-unknown-linux-gnu/release/sm9exec'),
     'tsan': (['+nightly', 'build', '--release', '-Zbuild-std', '--target', 'x86_64-unknown-linux-gnu',
               '--target-dir', 'target-tsan'],
-             {'RUSTFLAGS': '--cfg %s -Zsanitizer=thread' % GUARD},
+             {'RUSTFLAGS': '-Zsanitizer=thread'},
              'target-tsan/x86_64-unknown-linux-gnu/release/sm9exec'),
 }
 
@@ -62,15 +64,19 @@ def build(name, quiet=True):
     argv, env, rel = _BUILD[name]
     cmd = ['cargo'] + argv
     t0 = time.time()
-    env = dict(env)
-    if 'RUSTFLAGS' in env:
-        env['RUSTFLAGS'] += ' --cfg %s_lines' % GUARD
-    p = subprocess.run(cmd, cwd=EXEC_DIR, env=_cargo_env(env), stdout=subprocess.PIPE, stderr=subprocess.STDOUT, text=True)
-    if p.returncode != 0:
-        # the optional line-function hooks no longer match the tree (private functions refactored): build without them;
-        # the ops then answer 'unsupported' and C17 records that stage as skipped
-        env['RUSTFLAGS'] = env.get('RUSTFLAGS', '--cfg %s' % GUARD).replace(' --cfg %s_lines' % GUARD, '')
-        p = subprocess.run(cmd, cwd=EXEC_DIR, env=_cargo_env(env), stdout=subprocess.PIPE, stderr=subprocess.STDOUT, text=True)
+    extra = env.get('RUSTFLAGS', '')
+    # hook levels, tried in order: basic + optional line-function hooks; basic hooks only (private line helpers were refactored);
+    # no hooks at all (an internal signature the hooks depend on changed): the public-API monitors still run, hook ops answer
+    # 'bad unknown op' and are skipped, C17 becomes inconclusive
+    levels = [('lines', '--cfg %s --cfg %s_lines' % (GUARD, GUARD)), ('base', '--cfg %s' % GUARD), ('none', '--cfg sm9exec_nohooks')]
+    p = None
+    for level, flags in levels:
+        e = dict(env)
+        e['RUSTFLAGS'] = (flags + ' ' + extra).strip()
+        p = subprocess.run(cmd, cwd=EXEC_DIR, env=_cargo_env(e), stdout=subprocess.PIPE, stderr=subprocess.STDOUT, text=True)
+        if p.returncode == 0:
+            HOOK_LEVEL[name] = level
+            break
     if p.returncode != 0:
         tail = '\n'.join(p.stdout.splitlines()[-40:])
         raise Inconclusive('build of %s executor failed (cargo exit %d):\n%s' % (name, p.returncode, tail))
@@ -227,6 +233,7 @@ class Ctx:
         self.tier = tier
         self.seed = seed
         self.exe_paths = exes          # name -> path
+        self.hooks = exes.get('_hooks', 'lines')
         self._ex = {}
         self.evals = 0
         self.classes = collections.Counter()
@@ -447,6 +454,10 @@ def main_check(pid, tier, seed, replay=None, jobs=None, verbose=False):
             exes[name] = build(name)
     except Inconclusive as e:
         return inconclusive(str(e))
+    order = ['none', 'base', 'lines']
+    exes['_hooks'] = min((HOOK_LEVEL.get(n, 'lines') for n in need), key=order.index) if need else 'lines'
+    if exes['_hooks'] == 'none' and getattr(mod, 'NEEDS_HOOKS', False):
+        return inconclusive('the cfg(%s) hooks do not compile against this tree and this property can only be observed through them' % GUARD)
 
     if replay:
         rp = json.load(open(replay))
@@ -489,6 +500,10 @@ def main_check(pid, tier, seed, replay=None, jobs=None, verbose=False):
     if callable(getattr(mod, 'required', None)):
         required = mod.required(tier)
     missing = [c for c in required if agg.classes.get(c, 0) == 0] if not replay else []
+    if exes.get('_hooks') == 'none':
+        # classes that can only be observed through the hooks cannot be required when the hooks do not compile
+        hook_cls = tuple(getattr(mod, 'HOOK_CLASSES', ()))
+        missing = [c for c in missing if not c.startswith(hook_cls)] if hook_cls else missing
 
     # replays
     replay_paths = []
@@ -523,7 +538,8 @@ def main_check(pid, tier, seed, replay=None, jobs=None, verbose=False):
         'required_classes_missing': missing,
         'counters': {k: int(v) for k, v in sorted(agg.extra.items())},
         'cases': (len(cases) if cases is not None else 1),
-        'executors': sorted(exes),
+        'executors': sorted(k for k in exes if not k.startswith('_')),
+        'hooks_level': exes.get('_hooks'),
         'stages': stage_reports,
         'repo': repo_state(),
         'exhaustive': bool(getattr(mod, 'exhaustive', lambda tier: False)(tier)) if not replay else False,
